@@ -3,6 +3,7 @@ package props
 import (
 	"encoding/json"
 	"fmt"
+	"math"
 	"sort"
 	"strings"
 	"time"
@@ -279,8 +280,42 @@ func (p c01) one(c *fw.Ctx, stmts []*gt.Node, src string) {
 	c.Violate(kind, sig, c01Case{Src: src}, detail+"\nprogram:\n"+src)
 }
 
+// c01Scalars are the operands of the enumerated operator table: boundary integers and floats (among them floats
+// with the same integer part as an integer and a positive or negative fraction), strings, booleans, nil.
+var c01Scalars = []gt.Val{int64(0), int64(1), int64(-1), int64(2), int64(-2), int64(3), int64(-3), int64(63), int64(64), int64(9007199254740993), int64(math.MaxInt64), int64(math.MinInt64),
+	0.0, math.Copysign(0, -1), 0.5, -0.5, 1.0, 1.5, -1.5, 2.5, -2.5, -3.25, 3.0, 9007199254740992.0, 9223372036854775808.0, math.Inf(1), math.Inf(-1), math.NaN(),
+	"", "a", "ab", "é", true, false, gt.Nil{}}
+
+var c01TableOps = []string{"+", "-", "*", "/", "%", "==", "!=", "<", "<=", ">", ">=", "&&", "||", "&", "|", "^", "<<", ">>"}
+
 func (p c01) RunBatch(c *fw.Ctx) {
 	InitGrol(nil)
+	// enumerated: every infix operator on every ordered pair of scalars, as operator and through a map lookup
+	idx := 0
+	for _, a := range c01Scalars {
+		for _, b := range c01Scalars {
+			idx++
+			if idx%c.NBatches != c.Batch {
+				continue
+			}
+			// whether it fails, and its value when it does not (the text of an error is not part of the semantics, so it
+			// is never printed: a printed error text would make the whole output incomparable)
+			show := func(e *gt.Node) *gt.Node {
+				failed := &gt.Node{K: gt.KDot, Kids: []*gt.Node{gt.Bi("catch", e)}, Text: "err"}
+				return gt.Bi("println", failed, &gt.Node{K: gt.KIf, Kids: []*gt.Node{failed}, Body: []*gt.Node{gt.Lit(gt.Nil{})}, Else: []*gt.Node{e}, HasElse: true})
+			}
+			var stmts []*gt.Node
+			for _, op := range c01TableOps {
+				stmts = append(stmts, show(gt.In(op, gt.Lit(a), gt.Lit(b))))
+			}
+			stmts = append(stmts, show(gt.Idx(&gt.Node{K: gt.KMap, Kids: []*gt.Node{gt.Lit(a), gt.Lit(int64(1))}}, gt.Lit(b))),
+				show(gt.Pre("-", gt.Lit(a))), show(gt.Pre("!", gt.Lit(a))))
+			src := gt.Render(stmts)
+			c.Begin(c01Case{Src: src})
+			p.one(c, stmts, src)
+			c.Count("operator_table_pairs", 1)
+		}
+	}
 	n := c.Pick(5000, 60000)
 	for i := 0; i < n; i++ {
 		g := gt.NewGen(c.Rng)
